@@ -44,7 +44,7 @@ pub mod shims {
     /// SHIM (R4): the fn-pointer alias FormatFunction
     #[derive(Clone, Copy)]
     pub struct VFormatFn { _o: () }
-    pub struct DeferredNow { _o: () }
+    //@ include prelude/dnow_shim.rs
     /// oracles: the bytes a format function appends for a record, and whether it reports success
     /// (the format functions are `core::fmt` code outside the verifier, C20). A failing format function may have
     /// appended a part of its output: the line is then that part plus the line ending.
@@ -53,7 +53,9 @@ pub mod shims {
     impl VFormatFn {
         #[verifier::external_body]
         pub fn call(&self, w: &mut Vec<u8>, now: &mut DeferredNow, record: &log::Record) -> (r: Result<(), std::io::Error>)
-            ensures final(w)@ == old(w)@ + fmt_bytes(*self, record), r is Ok <==> fmt_ok(*self, record),
+            requires
+                now_ok(old(now).origin()), //@label FormatFunction::call.same_now C20
+            ensures final(w)@ == old(w)@ + fmt_bytes(*self, record), r is Ok <==> fmt_ok(*self, record), final(now).origin() == old(now).origin(),
         { unimplemented!() }
     }
     /// SHIM for std::time::Duration (only compared with ZERO_DURATION here): a number of nanoseconds
@@ -148,8 +150,11 @@ pub mod state_handle {
             // C20/C01: exactly the format output followed by the configured line ending is handed to State::write_buffer
             forall|b: Seq<u8>| #[trigger] wb_ok(b) <==> b == fmt_bytes(handle.fmt(), record) + handle.ending(),
             forall|c: ErrorCode| #[trigger] super::util::reportable(c) <==> (c is Format || c is Write),
+            // C20: the format function is handed the caller's timestamp holder, not a new one
+            forall|o: int| #[trigger] now_ok(o) <==> o == old(now).origin(),
         ensures
             final(buffer)@.len() == 0, //@label sync_write_tl.post.buffer_cleared C01,C20
+            final(now).origin() == old(now).origin(), //@label sync_write_tl.post.same_now C20
     //@ span src/writers/file_log_writer/state_handle.rs impl StateHandle / fn write
     //@   block Ok(mut buffer) =>
     //@   rename sync_write_tl
@@ -165,6 +170,10 @@ pub mod state_handle {
             handle.ending() == state_line_ending(),
             forall|b: Seq<u8>| #[trigger] wb_ok(b) <==> b == fmt_bytes(handle.fmt(), record) + handle.ending(),
             forall|c: ErrorCode| #[trigger] super::util::reportable(c) <==> (c is Format || c is Write),
+            // C20: the format function is handed the caller's timestamp holder, not a new one
+            forall|o: int| #[trigger] now_ok(o) <==> o == old(now).origin(),
+        ensures
+            final(now).origin() == old(now).origin(), //@label sync_write_tmp.post.same_now C20
     //@ span src/writers/file_log_writer/state_handle.rs impl StateHandle / fn write
     //@   block Err(_e) =>
     //@   rename sync_write_tmp
@@ -187,8 +196,11 @@ pub mod util_wb {
             old(buffer)@.len() == 0,
             forall|b: Seq<u8>| #[trigger] dw_ok(b) <==> b == fmt_bytes(format_function, record) + seq![10u8],
             forall|c: ErrorCode| #[trigger] super::util::reportable(c) <==> (c is Format || c is Write),
+            // C20: the format function is handed the caller's timestamp holder, not a new one
+            forall|o: int| #[trigger] now_ok(o) <==> o == old(now).origin(),
         ensures
             final(buffer)@.len() == 0, //@label write_buffered_tl.post.buffer_cleared C20
+            final(now).origin() == old(now).origin(), //@label write_buffered_tl.post.same_now C20
             result == dw_result(fmt_bytes(format_function, record) + seq![10u8]), //@label write_buffered_tl.post.handed_over C20,C19
     {
         let mut result: Result<(), std::io::Error> = Ok(());
@@ -205,8 +217,11 @@ pub mod util_wb {
         requires
             forall|b: Seq<u8>| #[trigger] dw_ok(b) <==> b == fmt_bytes(format_function, record) + seq![10u8],
             forall|c: ErrorCode| #[trigger] super::util::reportable(c) <==> (c is Format || c is Write),
+            // C20: the format function is handed the caller's timestamp holder, not a new one
+            forall|o: int| #[trigger] now_ok(o) <==> o == old(now).origin(),
         ensures
             result == dw_result(fmt_bytes(format_function, record) + seq![10u8]), //@label write_buffered_tmp.post.handed_over C20,C19
+            final(now).origin() == old(now).origin(), //@label write_buffered_tmp.post.same_now C20
     {
         let mut result: Result<(), std::io::Error> = Ok(());
     //@ span src/util.rs fn write_buffered
